@@ -67,7 +67,9 @@ inline Config gen_config(Chooser& ch, const GenOpts& o) {
   } else {
     c.codec = CODEC_LDPC;
     c.N1 = ch.range(3, 10);
-    if (o.even_n1_bias && ch.coin(3, 4)) c.N1 = (c.N1 | 1) + 1 > 10 ? 4 : (c.N1 | 1) + 1;
+    // the codec accepts any N1 in 3..n-k: now and then a large one (many equations per source symbol)
+    { uint32_t nc = ch.next() % 20; if (nc == 19) c.N1 = ch.range(41, 255); else if (nc >= 16) c.N1 = ch.range(11, 40); }
+    if (o.even_n1_bias && ch.coin(3, 4)) c.N1 = (c.N1 | 1) + 1 > 10 && c.N1 <= 10 ? 4 : (c.N1 | 1) + 1;
     uint32_t kmax = scale <= 1 ? 8 : scale <= 5 ? std::min<uint32_t>(40, o.max_k_ldpc) : o.max_k_ldpc;
     c.k = ch.range(1, kmax);
     // code rate classes: high rate (r small), 2/3, 1/2, low rate (r > k)
@@ -84,7 +86,11 @@ inline Config gen_config(Chooser& ch, const GenOpts& o) {
     rr += ch.range(0, 3);
     if (rr < c.N1) rr = c.N1;
     if (c.k + rr > o.max_n_ldpc) rr = std::max<uint32_t>(c.N1, o.max_n_ldpc > c.k ? o.max_n_ldpc - c.k : c.N1);
+    if (c.k + rr > 50000) { c.N1 = 3; rr = 3; }
     c.r = rr;
+    // now and then a very high rate code with k >= 256: equations with several hundred symbols (counters
+    // of row weights and of unknown symbols must hold more than 8 bits)
+    if (ch.next() % 20 == 19) { c.k = ch.range(256, 700); if (c.N1 > 12) c.N1 = ch.range(3, 10); c.r = c.N1 + ch.range(0, 6); }
     uint32_t sc = ch.next() % 8;
     c.seed = sc == 0 ? 1 : sc == 1 ? 0x7FFFFFFEu : sc == 2 ? ch.pick<uint32_t>({2, 16807, 0x7FFFFFFDu, 127773, 2836}) : (ch.next() % 0x7FFFFFFEu) + 1;
   }
@@ -253,6 +259,19 @@ inline History gen_multi(Chooser& ch, const GenOpts& o) {
       s = t;
     }
     h.scripts.push_back(s);
+  }
+  // now and then a long-lived noisy neighbour: thousands of duplicate submissions on one session before
+  // (and while) the others run (process-wide counters, caches and free lists get exercised)
+  if ((o.codecs & GC_LDPC) && ch.next() % 32 == 31) {
+    Script a; a.cfg.codec = CODEC_LDPC; a.cfg.k = ch.range(2, 12); a.cfg.N1 = 3; a.cfg.r = ch.range(3, 12); a.cfg.seed = 1 + ch.next() % 1000; a.cfg.L = 4; a.cfg.payload = PAY_RANDOM; a.role = ROLE_DEC;
+    Step sp; sp.op = OP_SETPARAMS; a.steps.push_back(sp);
+    uint32_t dups = ch.pick<uint32_t>({1500, 5000, 9000});
+    uint32_t e = a.cfg.k + ch.next() % a.cfg.r;
+    for (uint32_t i = 0; i < dups; i++) { Step st; st.op = OP_NEW; st.esi = e; st.flag = i & 1; a.steps.push_back(st); }
+    h.scripts.insert(h.scripts.begin(), a);
+    ns = (uint32_t)h.scripts.size();
+    for (size_t i = 0; i < a.steps.size() + 1; i++) h.inter.push_back(0);   // neighbour first (not released yet)
+    return h;
   }
   size_t total = 0;
   for (auto& s : h.scripts) total += s.steps.size() + 2;
